@@ -74,6 +74,10 @@ CASES = [
      ["MultiplexHypergraph.get_edges@md"], "raises:KeyError:undeclared"),
     ("multiplex: remove_edge leaves the metadata entry", MH, "        if edge_id in self._edge_metadata:\n            del self._edge_metadata[edge_id]\n\n        nodes, layer = edge", "        nodes, layer = edge", 0,
      ["MultiplexHypergraph.remove_edge"], "wf.em_live"),
+    ("exact reciprocity looks the hyperedge itself up instead of its reverse", "hypergraphx/measures/directed/reciprocity.py",
+     "        reciprocated_edge = (edge[1], edge[0])\n        if reciprocated_edge in edge_set:\n            size = len(edge[0]) + len(edge[1])\n            rec[size] += 1\n\n    # Calculate reciprocity ratios\n    for size in range(2, max_hyperedge_size + 1):\n        if tot[size] != 0:\n            rec[size] = rec[size] / tot[size]\n        else:\n            rec[size] = 0\n\n    return rec\n\n\ndef strong",
+     "        reciprocated_edge = (edge[0], edge[1])\n        if reciprocated_edge in edge_set:\n            size = len(edge[0]) + len(edge[1])\n            rec[size] += 1\n\n    # Calculate reciprocity ratios\n    for size in range(2, max_hyperedge_size + 1):\n        if tot[size] != 0:\n            rec[size] = rec[size] / tot[size]\n        else:\n            rec[size] = 0\n\n    return rec\n\n\ndef strong", 0,
+     ["exact_reciprocity"], "loop1:preserved:rec"),
     ("add_random_edges draws one node too few", "hypergraphx/generation/random.py", "        edges.add(tuple(sorted(random.sample(nodes, size))))",
      "        edges.add(tuple(sorted(random.sample(nodes, size - 1))))", 0, ["add_random_edges@inplace"], "loop0:preserved:drawn"),
     # ---- hygiene-only and behaviour-preserving changes: nothing may fail
